@@ -34,7 +34,16 @@
 namespace hx {
 
 struct OpSpec { std::string name; std::vector<long> args; };
-struct OpRec { int tid; int idx; std::string name; std::vector<long> args; std::string res; long inv = -1, ret = -1; bool done = false; };
+struct OpRec { int tid; int idx; std::string name; std::vector<long> args; std::string res; long inv = -1, ret = -1; bool done = false; uint32_t vci[16] = {0}, vcr[16] = {0}; };
+inline bool g_hb_order = false;   // weak-memory mode: operations are ordered by happens-before, not by wall-clock time
+inline bool op_precedes(const OpRec& a, const OpRec& b) {
+  if (!a.done) return false;
+  if (!g_hb_order) return a.ret < b.inv;
+  if (a.tid == b.tid) return a.ret < b.inv;
+  if (a.tid == 0 || b.tid == 0) return a.ret < b.inv;   // the main thread runs before / after all others (spawn and join synchronise)
+  for (int i = 0; i < 16; i++) if (a.vcr[i] > b.vci[i]) return false;
+  return a.ret < b.inv;
+}
 struct Case {
   std::map<std::string, std::string> cfg;
   std::vector<std::vector<OpSpec>> prog;  // prog[0] = thread 1
@@ -99,12 +108,12 @@ struct LinCheck {
     if (++nodes > limit) return true;  // give up = no verdict (never a failure)
     std::string k = std::to_string(done) + "|" + spec.key(st);
     if (!seen.insert(k).second) return false;
-    // minimal return time among not-yet-linearized completed ops: an op can go next only if it was invoked before that
-    long minret = -1;
-    for (size_t i = 0; i < n; i++) if (!(done >> i & 1) && h[i].done) { if (minret < 0 || h[i].ret < minret) minret = h[i].ret; }
+    // an operation can be linearized next only if no not-yet-linearized completed operation precedes it
     for (size_t i = 0; i < n; i++) {
       if (done >> i & 1) continue;
-      if (minret >= 0 && h[i].inv > minret) continue;
+      bool blocked = false;
+      for (size_t j = 0; j < n && !blocked; j++) if (j != i && !(done >> j & 1) && op_precedes(h[j], h[i])) blocked = true;
+      if (blocked) continue;
       typename Spec::State s2 = st;
       if (spec.apply(s2, h[i])) { if (dfs(done | (1ull << i), s2)) return true; }
       typename Spec::State s3 = st;
@@ -132,7 +141,7 @@ struct Opts { bool trace = false, race = false, weak = false, aba = false; int W
 struct ExecOut { int status = 0; std::string detail; std::vector<int> sched; std::vector<uint32_t> enabled; std::vector<uint64_t> choices; std::vector<long> tsteps; long steps = 0; };
 
 struct Shared {  // result area shared with forked children
-  int status; long steps; int nsched; int nchoices; long solo_at; int solo_tid; long solo_budget; char detail[1024]; int sched[60000]; uint32_t enabled[60000]; uint64_t choices[256]; long tsteps[17]; int nts; long stale; long loads;
+  int status; long steps; int nsched; int nchoices; long solo_at; int solo_tid; long solo_budget; unsigned long long seed; char detail[1024]; int sched[60000]; uint32_t enabled[60000]; uint64_t choices[256]; long tsteps[17]; int nts; long stale; long loads;
 };
 
 inline std::vector<OpRec>* g_hist = nullptr;
@@ -144,7 +153,7 @@ inline long g_clock = 0;
 // Executes one case in the current process. If `print` the trace/history/result are written to stdout.
 inline ExecOut execute(Adapter& A, const Case& c, const Opts& o, xv::Scheduler& sch, bool print, Shared* sh) {
   xv::Config cfg; cfg.trace = o.trace; cfg.race = o.race || o.weak; cfg.weak = o.weak; cfg.weak_window = o.W; cfg.aba = o.aba; cfg.seed = o.seed; cfg.max_steps = o.max_steps; cfg.spin_limit = o.spin;
-  std::vector<OpRec> hist; g_hist = &hist; g_clock = 0;
+  std::vector<OpRec> hist; g_hist = &hist; g_clock = 0; g_hb_order = o.weak;
   std::vector<std::string> final_lines;
   auto dump = [&](int status, const std::string& detail) {
     if (print) {
@@ -168,6 +177,7 @@ inline ExecOut execute(Adapter& A, const Case& c, const Opts& o, xv::Scheduler& 
     dump(xv::status(), xv::detail());
     if (print) std::cout.flush();
   });
+  if (sh) sh->seed = o.seed;
   xv::reset(cfg);
   A.setup(c);
   {
@@ -185,14 +195,14 @@ inline ExecOut execute(Adapter& A, const Case& c, const Opts& o, xv::Scheduler& 
           g_in_op[tid] = true;
           {
             xv::Quiet q2;
-            OpRec r; r.tid = tid; r.idx = (int)i; r.name = ops[i].name; r.args = ops[i].args; r.inv = ++g_clock;
+            OpRec r; r.tid = tid; r.idx = (int)i; r.name = ops[i].name; r.args = ops[i].args; r.inv = ++g_clock; xv::clock_snapshot(r.vci);
             slot = hist.size(); hist.push_back(r);
             std::string s = "inv " + ops[i].name; for (long a : ops[i].args) s += " " + std::to_string(a); xv::event(s);
           }
           std::string res = A.exec(tid, ops[i]);   // adapters keep their own bookkeeping inside xv::Quiet
           {
             xv::Quiet q2;
-            hist[slot].res = res; hist[slot].ret = ++g_clock; hist[slot].done = true;
+            hist[slot].res = res; hist[slot].ret = ++g_clock; hist[slot].done = true; xv::clock_snapshot(hist[slot].vcr);
             xv::event("res " + res);
           }
           g_in_op[tid] = false;
@@ -353,6 +363,7 @@ inline int main_driver(int argc, char** argv, std::function<Adapter*()> mk) {
     else if (a == "--solo-budget") o.solo_budget = atol(nxt().c_str());
     else if (a == "--quiet") o.quiet = true;
   }
+  if (c.geti("wseed", 0)) o.seed = (uint64_t)strtoull(c.gets("wseed", "1").c_str(), 0, 10);
   if (c.geti("aba", 0)) o.aba = true;
   if (c.geti("race", 0)) o.race = true;
   if (c.geti("weak", 0)) { o.weak = true; o.W = (int)c.geti("weak", 16); }
@@ -385,6 +396,7 @@ inline int main_driver(int argc, char** argv, std::function<Adapter*()> mk) {
         if (!found_kinds.insert(norm).second) return false;   // same kind of finding already reported: keep exploring
         std::cout << "FOUND status=" << sh->status << " detail=" << sh->detail << "\n";
         Case c2 = c;
+        if (o.weak) c2.cfg["wseed"] = std::to_string(sh->seed);
         if (sh->solo_at >= 0) { c2.cfg["solo_at"] = std::to_string(sh->solo_at); c2.cfg["solo_tid"] = std::to_string(sh->solo_tid); c2.cfg["solo_budget"] = std::to_string(sh->solo_budget); }
         std::cout << "CASE-BEGIN\n" << case_text(c2, &sc, &ch) << "CASE-END\n";
         return (int)found_kinds.size() >= o.maxfound;
